@@ -296,6 +296,7 @@ class Algebra:
         self.fold_enabled = True
         self.ranges = {}         # sym name -> (lo, hi) range for witness search
         self.opaque_rules = {}   # fname -> rule(args) -> RF or None (axioms of an uninterpreted function)
+        self.threshold_hints = {}       # symbol name -> literals it is compared with through max / min (sampled on both sides)
         self.numeric_functions = {}     # fname -> fn(Decimal ...) -> Decimal: at witness points the atom takes the function's TRUE value
                                         # (needed where magnitudes matter: error bounds; identity tests do not need it)
         self._radicands = []     # (RF, fingerprint) of forms raised to fractional powers
@@ -1519,6 +1520,13 @@ class Algebra:
             if m:
                 return fn(m, k, (hash_str("%s|%d" % (at.name, k)) % 100003) / 100003.0)
         h = (hash_str("%s|%d" % (at.name, k)) % 100003) / 100003.0
+        th = self.threshold_hints.get(at.name)
+        if th and k % 3 == 1:
+            # every third point: just BELOW (in magnitude) one of the literals this symbol meets in a max / min
+            c = th[(k // 3) % len(th)]
+            v = c * (0.05 + 0.9 * h)
+            if not at.positive or v > float(self.lower_bounds.get(at.id, 0)):
+                return v
         # sign bit: a HIGH bit of the hash (the lowest bit of FNV-1a is the parity of the characters' low bits,
         # which made the signs of `uL` and `uR` equal at every point: opposite-sign pairs were never sampled)
         h2 = hash_bit("%s#%d" % (at.name, k))
